@@ -215,7 +215,27 @@ func H_C15_math() {
 		VAssert(ok, "math: result is a number")
 		return float64(v)
 	}
-	switch VChoice(9) {
+	switch VChoice(11) {
+	case 9:
+		// frexp parts recompose exactly through ldexp, for every finite x (the library's own bit-level
+		// definitions of Frexp and Ldexp are executed symbolically)
+		VAssume(VAnd(x == x, VAnd(x < mathInfRef(1), x > mathInfRef(-1))))
+		out, err := callLib(L, "math", "frexp", 2, LNumber(x))
+		VAssert(err == nil, "frexp: no error")
+		m, e := num(out, 0), num(out, 1)
+		VAssert(VOr(VAnd(x == 0, VAnd(m == 0, e == 0)), VOr(VAnd(m >= 0.5, m < 1), VAnd(m <= -0.5, m > -1))), "frexp: mantissa magnitude in [0.5, 1), or all zero")
+		out, err = callLib(L, "math", "ldexp", 1, LNumber(m), LNumber(e))
+		VAssert(err == nil, "ldexp: no error")
+		VAssert(VSameF(num(out, 0), x), "frexp/ldexp: the parts recompose exactly")
+	case 10:
+		// ldexp(m, e) == m * 2^e for exponents at and beyond the ends of the double range
+		pool := []int{-1080, -1075, -1074, -1073, -1023, -1022, -1021, -54, -53, -1, 0, 1, 53, 1022, 1023, 1024, 1025, 2100}
+		e := pool[VChoice(len(pool))]
+		out, err := callLib(L, "math", "ldexp", 1, LNumber(x), LNumber(e))
+		VAssert(err == nil, "ldexp: no error")
+		ref, ok := mathLdexpRef(x, e)
+		VAssume(ok)
+		VAssert(VSameF(num(out, 0), ref), "ldexp: m * 2^e rounded once (no intermediate overflow or underflow)")
 	case 0:
 		out, err := callLib(L, "math", "floor", 1, LNumber(x))
 		VAssert(err == nil, "floor: no error")
